@@ -38,11 +38,12 @@ pub(crate) fn is_dwarf_section_name(name: &str) -> bool {
     ];
     // DWARF sections this version of gimli has no id for. They index the
     // sections above, so they cannot be kept once those are rewritten or dropped.
-    const OTHER_DWARF_SECTIONS: [&str; 4] = [
+    const OTHER_DWARF_SECTIONS: [&str; 5] = [
         ".debug_names",
         ".debug_sup",
         ".debug_gnu_pubnames",
         ".debug_gnu_pubtypes",
+        ".debug_macinfo.dwo",
     ];
     DWARF_SECTIONS
         .iter()
